@@ -132,7 +132,7 @@ def sections(pt):
             "natural": [formula("D2O", natural_density=1.0).density, formula("D2O@1.1").natural_density],
             "volume": [formula("NaCl").volume(5.64, 5.64, 5.64), formula("Fe").volume("bcc"), formula("SiO2").volume(4.9, c=5.4, gamma=120)]},
         "C13": lambda: {
-            "small": str(1.234567e-7 * formula("H2O")), "large": str(formula("SiO2") * 0 + 12345678 * formula("SiO2")),
+            "small": str(1.234567e-7 * formula("H2O")), "large": str(12345678 * formula("SiO2")),
             "big int": str(formula([(10 ** 15, el.Si)])), "named": [str(formula("H2O", name="water")), repr(formula("H2O", name="water"))],
             "nested": str(formula("(CH3(CH2)2.5)3 Fe{2+}0.001"))},
         "C14": lambda: {"activity": sorted((k.daughter, v) for k, v in activ([0.0, 1.0, 24.0, 360.0, 1e5]).activity.items()),
